@@ -1,7 +1,6 @@
 package symex
 
 import (
-	"sync/atomic"
 	"fmt"
 
 	"golang.org/x/tools/go/ssa"
@@ -9,11 +8,11 @@ import (
 )
 
 type State struct {
-	heap  map[int]Value
-	pc    *smt.Term
-	dead  bool
-	facts map[int]*smt.Term // term id -> constant it is known to equal on this path
-	clauses []*smt.Term     // disjunctive path conditions (checked by propagation when forking)
+	heap    map[int]Value
+	pc      *smt.Term
+	dead    bool
+	facts   map[int]*smt.Term // term id -> constant it is known to equal on this path
+	clauses []*smt.Term       // disjunctive path conditions (checked by propagation when forking)
 }
 
 // under simplifies a condition with what is known on this path (cheap infeasibility pruning):
@@ -153,8 +152,6 @@ func (st *State) infeasible(c *smt.Term) bool {
 	}
 	return false
 }
-
-
 
 type deferEntry struct {
 	G    *smt.Term
@@ -347,16 +344,12 @@ func mergeFrames(dst *Frame, c *smt.Term, s1, s2 *State, f1, f2 *Frame) {
 
 type Unsupported struct{ Msg string }
 
-func (u *Unsupported) Error() string { return "unsupported: " + u.Msg }
+func (u *Unsupported) Error() string      { return "unsupported: " + u.Msg }
 func unsupported(msg string) *Unsupported { return &Unsupported{msg} }
 
-// ResourceExceeded is set by the driver's memory watchdog; the executor gives up the current harness
-// (reported as inconclusive, never as success) instead of being killed by the kernel.
-var ResourceExceeded atomic.Bool
-
 func checkResources() {
-	if ResourceExceeded.Load() {
-		panic(&Unsupported{"resource bound: encoder memory limit reached (harness bounds too large for this machine); nothing is claimed for this harness"})
+	if smt.Abort.Load() {
+		panic(smt.ResourceError{})
 	}
 }
 
